@@ -231,6 +231,36 @@ def run(ctx):
         if not agree(kind, im, o):
             ctx.violation(f"{kind} differs from its definition after the arrays were edited in place between calls (step {stepno})",
                           {"kind": kind, "ref": ref, "pred": pred, "ri": ri, "pi": pi, "implementation": im, "definition": o, "sequence_step": stepno})
+    # volumes of 10^6 .. 10^7 voxels (no size-dependent behaviour is allowed): counts by plain numpy, quotients as exact fractions
+    big_shapes = [(128, 128, 128), (64, 128, 128), (2048, 1024), (1 << 21,), (100, 101, 103), (1500, 1400)]
+    if ctx.tier == "thorough":
+        big_shapes += [(155, 240, 240), (256, 256, 32), (1 << 20,), (3, 1 << 19), (1024, 1024)]
+    for shape in big_shapes:
+        lo = [rng.randint(0, max(0, d // 3)) for d in shape]
+        hi = [min(d, l + max(2, d // 2 + rng.randint(-d // 8, d // 8))) for d, l in zip(shape, lo)]
+        ref = np.zeros(shape, np.uint8); pred = np.zeros(shape, np.uint8)
+        ref[tuple(slice(a, b) for a, b in zip(lo, hi))] = 1
+        sh = [rng.randint(0, max(1, (b - a) // 6)) for a, b in zip(lo, hi)]
+        pred[tuple(slice(min(d - 1, a + s_), min(d, b + s_)) for a, b, s_, d in zip(lo, hi, sh, shape))] = rng.choice([1, 2])
+        pl = int(pred.max())
+        for ri, pi in ((None, None), (1, pl), (1, [pl, 7])):
+            rm = (ref == ri) if ri is not None else (ref != 0)
+            pm = np.isin(pred, pi if isinstance(pi, list) else [pi]) if ri is not None else (pred != 0)
+            ni, nr_, np_ = int(np.logical_and(rm, pm).sum()), int(rm.sum()), int(pm.sum())
+            nu = nr_ + np_ - ni
+            want = {"DSC": Fraction(2 * ni, nr_ + np_) if nr_ + np_ else Fraction(0), "IOU": Fraction(ni, nu) if nu else Fraction(0),
+                    "RVD": Fraction(np_ - nr_, nr_) if nr_ else None}
+            for kind in ("DSC", "IOU", "RVD"):
+                if want[kind] is None:
+                    continue
+                # without label selection the arguments are masks (0/1)
+                im = impl_call(kind, ref, pred if ri is not None else (pred != 0).astype(np.uint8), ri, pi)
+                ctx.count({"kind": kind, "large": list(shape), "ri": ri, "pi": pi, "box": [lo, hi, sh]}, True)
+                ctx.bump(f"{kind}/large volume")
+                if im[0] != "ok" or abs(Fraction(im[1]) - want[kind]) > Fraction(1, 10 ** 12):
+                    ctx.violation(f"{kind} on a {shape} volume differs from its set-theoretic definition: {im} vs {float(want[kind])!r}",
+                                  {"kind": kind, "large_shape": list(shape), "box": [lo, hi, sh], "pred_label": pl, "ri": ri, "pi": pi,
+                                   "implementation": im, "definition": float(want[kind])})
     step = max(1, len(ins) // 60)
     triples += [(601, i, o) for i, o in list(zip(ins, outs))[::step]][:80]
     n, bad = coq_crosscheck("C06", triples)
@@ -242,6 +272,16 @@ def run(ctx):
 
 def replay(path):
     d = json.loads(open(path).read())
+    if "large_shape" in d:
+        shape = tuple(d["large_shape"]); lo, hi, sh = d["box"]
+        ref = np.zeros(shape, np.uint8); pred = np.zeros(shape, np.uint8)
+        ref[tuple(slice(a, b) for a, b in zip(lo, hi))] = 1
+        pred[tuple(slice(min(dd - 1, a + s_), min(dd, b + s_)) for a, b, s_, dd in zip(lo, hi, sh, shape))] = d["pred_label"]
+        im = impl_call(d["kind"], ref, pred if d["ri"] is not None else (pred != 0).astype(np.uint8), d["ri"], d["pi"])
+        print(f"{d['kind']} on a {shape} volume: implementation {im}, definition {d['definition']!r}")
+        ok = im[0] == "ok" and abs(im[1] - d["definition"]) <= 1e-12
+        print("agree" if ok else "DIFFER")
+        return 0 if ok else 1
     ref, pred = common.arr_from_json(d["ref"]), common.arr_from_json(d["pred"])
     im = impl_call(d["kind"], ref, pred, d["ri"], d["pi"])
     mo = engine_run(601, [model_case(d["kind"], ref, pred, d["ri"], d["pi"])])[0]
